@@ -79,6 +79,9 @@ type Case struct {
 	Attrs []Attr            `json:"attrs"`
 	Data  map[string]vals.V `json:"data,omitempty"`
 	After string            `json:"after,omitempty"` // "", pool, tpl: a failing variant is rendered first (after_test.go)
+	// Entry is the entry point the page goes through, Deliver how the data reaches it (entry_test.go).
+	Entry   string `json:"entry,omitempty"`   // "" (legacy: RenderString, or Load.Fill.Render for the slot placements), string, byte, reader, load, file, vue-render, vue-fragment, vue-nodes
+	Deliver string `json:"deliver,omitempty"` // "" / fill, assign (key by key), fill+assign
 }
 
 const (
@@ -208,6 +211,19 @@ func attrSrc(a Attr) string {
 	return ""
 }
 
+// containerTag: parser-sensitive containers and the tag the element under test must have there.
+//
+//	noscript <div><noscript>EL</noscript></div>   (any tag; raw text to a parser with scripting on)
+//	td       <table><tbody><tr>EL</tr></tbody></table>   EL is the <td>
+//	select   <div><select>EL</select></div>              EL is an <option>
+//	svg      <div><svg>EL</svg></div>                    EL is a <g> in the SVG namespace
+//	tplwrap  <div><template>EL</template></div>         (any tag; the wrapper is dissolved)
+var containerTag = map[string]string{"td": "td", "select": "option", "svg": "g"}
+
+func foreignAdjusted(name string) bool {
+	return strings.HasPrefix(name, "xml:") || strings.HasPrefix(name, "xlink:") || strings.HasPrefix(name, "xmlns")
+}
+
 func (c Case) element() string {
 	var sb strings.Builder
 	sb.WriteString("<" + c.Tag)
@@ -226,9 +242,23 @@ func (c Case) source() (page string, files map[string]string) {
 	el := c.element()
 	if c.dir("v-else-if") || c.dir("v-else") {
 		// the element is reached through a chain whose first branch is false
-		el = `<i v-if="chainoff">x</i>` + el
+		sib := "i"
+		if t, ok := containerTag[c.Place]; ok {
+			sib = t // the only kind of element the container's parser rules keep
+		}
+		el = `<` + sib + ` v-if="chainoff">x</` + sib + `>` + el
 	}
 	switch c.Place {
+	case "noscript":
+		return `<div><noscript>` + el + `</noscript></div>`, nil
+	case "td":
+		return `<table><tbody><tr>` + el + `</tr></tbody></table>`, nil
+	case "select":
+		return `<div><select name="s">` + el + `</select></div>`, nil
+	case "svg":
+		return `<div><svg width="10" height="10">` + el + `</svg></div>`, nil
+	case "tplwrap":
+		return `<div><template>` + el + `</template></div>`, nil
 	case "root":
 		return el, nil
 	case "tplfor":
@@ -742,6 +772,9 @@ func markedStartTags(out string) [][]string {
 			continue
 		}
 		tok := z.Token()
+		if tok.Data == "noscript" {
+			z.NextIsNotRawText() // read the way a client without scripting reads it
+		}
 		var names []string
 		marked := false
 		for _, a := range tok.Attr {
@@ -771,6 +804,9 @@ func render(c Case) (string, error) {
 			return vuego.NewFS(memfs.FromMap(files), vuego.WithFuncs(failFuncs)).Load("page.vuego").Fill(c.goData())
 		}
 		return vuego.New(vuego.WithFuncs(failFuncs)).Fill(c.goData())
+	}
+	if c.Entry != "" {
+		return renderEntry(c)
 	}
 	after := c.After
 	if after == "tpl" && c.dir("v-once") {
@@ -803,6 +839,16 @@ func check(c Case) error {
 	if !c.has("static", "data-m") {
 		return nil // not a case of this package
 	}
+	if t, ok := containerTag[c.Place]; ok && c.Tag != t {
+		return nil // the container's parser rules would move or drop the element
+	}
+	if c.Place == "svg" {
+		for _, a := range c.Attrs {
+			if foreignAdjusted(a.Name) {
+				return nil // xml:lang and the like are namespaced by the parser in foreign content
+			}
+		}
+	}
 	// elements whose own condition is off are C03's subject
 	for _, a := range c.Attrs {
 		if a.Kind == "dir" && (a.Name == "v-if" || a.Name == "v-else-if") {
@@ -816,7 +862,7 @@ func check(c Case) error {
 	if err != nil {
 		return fmt.Errorf("render of %s failed: %v", page, err)
 	}
-	forest, err := hx.Frag(out, hx.Collapse)
+	forest, err := parseOut(out)
 	if err != nil {
 		return fmt.Errorf("output of %s does not parse: %v", page, err)
 	}
